@@ -63,7 +63,8 @@ def helper_oracle(res: Result, rng: random.Random, fails: list, n: int):
             code = rng.choice(codes + [999, 70000])
             flags = rng.choice([0x80, 0xc0, 0x90, 0xd0])
             sid = ("sess;%d" % rng.getrandbits(32)).encode()
-            avps = [gen.rfc_wire(263, 0, 0x40, sid)]
+            with_sid = rng.random() < 0.75             # (a request without Session-Id: the answer has none either)
+            avps = [gen.rfc_wire(263, 0, 0x40, sid)] if with_sid else []
             # 0..3 Proxy-Info AVPs (a chain of proxies): the answer carries them all, in the same order (RFC 6733 6.2)
             pis = [gen.rfc_wire(280, 0, 0x40, b"proxy%d.host" % k) + gen.rfc_wire(33, 0, 0x40, b"st%d" % k)
                    for k in range(rng.choice([0, 0, 1, 1, 2, 3]))]
@@ -108,7 +109,13 @@ def helper_oracle(res: Result, rng: random.Random, fails: list, n: int):
                     fails.append({"what": f"{who} helper answer does not parse: {ex}", "line": f"HELPER {who} {data.hex()}"})
                     continue
                 have = {(c, v): d for c, v, f, d in got}
-                want = {(264, 0): b"verif.node.example", (296, 0): b"verif.realm.example", (263, 0): sid}
+                want = {(264, 0): b"verif.node.example", (296, 0): b"verif.realm.example"}
+                if with_sid:
+                    want[(263, 0)] = sid
+                elif (263, 0) in have:
+                    fails.append({"what": f"{who} helper answer carries a Session-Id although the request has none (nothing to copy)",
+                                  "line": f"HELPER {who} {data.hex()}", "real": wire.hex()[:200]})
+                    continue
                 missing = [k for k, d in want.items() if have.get(k) != d]
                 if with_pi and [d for c, v, f, d in got if (c, v) == (284, 0)] != pis:
                     missing.append((284, 0))
